@@ -411,6 +411,21 @@ class SQLGenerator:
         # Extract columns needed for metric-level filters (before building CTEs)
         metric_filter_cols_by_model = self._extract_metric_filter_columns(metrics)
 
+        # Key columns each model contributes to the joins of this query, read off the join paths
+        # themselves: the keys of a hop may be named by a relationship declared on a model that is
+        # not part of the query (the junction keys of a many_to_many, an explicit primary_key)
+        join_key_columns: dict[str, list[str]] = {}
+        for other_model in model_names[1:]:
+            try:
+                join_path = self.graph.find_relationship_path(base_model_name, other_model)
+            except (KeyError, ValueError):
+                continue
+            for hop in join_path:
+                for hop_model, hop_columns in ((hop.from_model, hop.from_columns), (hop.to_model, hop.to_columns)):
+                    for key_col in hop_columns:
+                        if key_col not in join_key_columns.setdefault(hop_model, []):
+                            join_key_columns[hop_model].append(key_col)
+
         # Build CTEs for all models with pushed-down filters
         cte_sqls = []
         for model_name in sorted(all_models):
@@ -424,6 +439,7 @@ class SQLGenerator:
                 order_by=order_by,
                 all_models=all_models,
                 metric_filter_columns=metric_filter_cols,
+                join_key_columns=join_key_columns.get(model_name),
             )
             cte_sqls.append(cte_sql)
 
@@ -932,6 +948,7 @@ class SQLGenerator:
         order_by: list[str] | None = None,
         all_models: set[str] | None = None,
         metric_filter_columns: set[str] | None = None,
+        join_key_columns: list[str] | None = None,
     ) -> str:
         """Build CTE SQL for a model with optional filter pushdown.
 
@@ -943,6 +960,7 @@ class SQLGenerator:
             order_by: Order by fields (for determining needed dimensions)
             all_models: All models in query (for determining if joins needed)
             metric_filter_columns: Columns needed for metric-level filters
+            join_key_columns: Key columns of this model used by the join paths of the query
 
         Returns:
             CTE SQL string
@@ -1009,6 +1027,13 @@ class SQLGenerator:
                         if fk and fk not in columns_added:
                             select_cols.append(f"{fk} AS {self._quote_alias(fk)}")
                             columns_added.add(fk)
+
+        # Include every key column the join paths of this query use on this model
+        for key_col in join_key_columns or []:
+            if key_col not in columns_added:
+                select_cols.append(f"{key_col} AS {self._quote_alias(key_col)}")
+                columns_added.add(key_col)
+                needed_dimensions.discard(key_col)
 
         # Determine table alias for {model} placeholder replacement
         # In CTEs, we're selecting from the raw table (or subquery AS t)
